@@ -1073,3 +1073,10 @@ def is_new(ex, st, x):
     if pre is None:
         raise OutOfReach('is_new outside a function verification')
     return SV(ex.term(x, 'R') >= ex.H(pre, 'next'), BOOL)
+
+
+@specfunc('iter_list:ElementList')
+def iter_list_elementlist(ex, st, obj):
+    """iterating an ElementList (a MutableSequence: __len__ / __getitem__ over self.list, both under contract) walks its
+    children list"""
+    return ex.read_field(st, obj, 'list')
